@@ -119,12 +119,24 @@ structure ImageIn where
   ptLBytes : Bytes
   ptMBytes : Bytes
 
-def ImageIn.writes (i : ImageIn) : List Wr :=
-  [⟨0, zeros (16 * i.bs)⟩] ++
+/-- directory extents, the two path tables, file contents: what lies behind the descriptor set -/
+def ImageIn.mid (i : ImageIn) : List Wr :=
   i.dirs.map (fun d => ⟨(i.t.ent d).loc * i.bs, padBlock i.bs (i.t.dirBytes i.bs d)⟩) ++
-  [⟨i.pvd.ptL * i.bs, i.ptLBytes⟩, ⟨i.pvd.ptM * i.bs, i.ptMBytes⟩] ++
-  i.files.map (fun f => ⟨(i.t.ent f).loc * i.bs, padBlock i.bs (i.t.ent f).content⟩) ++
-  [⟨16 * i.bs, encodePVD i.pvd⟩, ⟨17 * i.bs, terminator⟩]
+  ([⟨i.pvd.ptL * i.bs, i.ptLBytes⟩, ⟨i.pvd.ptM * i.bs, i.ptMBytes⟩] ++
+  i.files.map (fun f => ⟨(i.t.ent f).loc * i.bs, padBlock i.bs (i.t.ent f).content⟩))
+
+def ImageIn.writes (i : ImageIn) : List Wr :=
+  ⟨0, zeros (16 * i.bs)⟩ :: (i.mid ++ [⟨16 * i.bs, encodePVD i.pvd⟩, ⟨17 * i.bs, terminator⟩])
+
+/-- pieces placed one after the other in whole blocks from block `s` (the sequential location
+    assignment of Finalize: `location += blocks`) -/
+def seqWr (bs : Nat) : Nat → List Bytes → List Wr
+  | _, [] => []
+  | s, b :: r => ⟨s * bs, b⟩ :: seqWr bs (s + blocksFor b.length bs) r
+
+/-- the locations in the tree and in the PVD are the ones the layout assigns: the root directory at
+    block 18 (`dataStartSector + 2`), every further piece where the blocks of the previous end -/
+def ImageIn.Placed (i : ImageIn) : Prop := i.mid = seqWr i.bs (dataStartSector + 2) (i.mid.map (·.data))
 
 def blank : Dev := fun _ => 0
 
